@@ -693,6 +693,20 @@ def gen_main(tier, F):
         ok = ['php', '2', '1']
         bad = ['php', '2', 'x']
         yield case(fam, tool, '-', [], [], core=True)
+        # the complete product of the independent output switches: each
+        # one alone says little about a pair (seeded change C18-s21: OPB
+        # output x -q x --varnames)
+        fmts = [[], ['-of', 'dimacs'], ['-of', 'opb'], ['-of', 'latex'], ['-l'],
+                ['-o', 'o.opb'], ['-o', 'o.tex'], ['-o', 'o.cnf']]
+        for fm in fmts:
+            for q in ([], ['-q'], ['--quiet']):
+                for vn in ([], ['--varnames']):
+                    for vb in ([], ['-v']):
+                        for w in (ok, bad, ['and', '0', '0'], ['and', '1', '1'],
+                                  ['parity', '3'], ['op', '3', '--total']):
+                            yield case(fam, tool, '-', fm + q + vn + vb, w)
+                            if q and vn:
+                                yield case(fam, tool, '-', vn + vb + fm + q, w)
         for t in A8 + ['bogus', 'ph', 'PHP', '-', '--', '-T', '-x', '--bogus',
                        '-h', '--help', '-V', '--version', '--tutorial',
                        '--help-graph', '--help-bipartite', '--help-dag', '-T']:
